@@ -235,15 +235,12 @@ def explore_subtree(harness, on_path, prefix, budget=None, timeout_ms=20000):
             raise
         except Exception as e:  # the code under check raised: that is a result
             exc = e
+        st["paths"] += 1
+        if exc != "abort":
+            on_path(p, res, exc)   # may fork too (reference oracles run here): same path, same bookkeeping
         if p.pos < len(p.prefix):
             raise EngineError("replay consumed %d of %d prefix decisions" % (p.pos, len(p.prefix)))
-        st["paths"] += 1
         st["forks2"] += p.forks2
-        if exc != "abort":
-            try:
-                on_path(p, res, exc)
-            finally:
-                pass
         st["checks"] += p.n_checks
         st["solver_s"] += p.solver_s
         st["inconclusive"] += p.inconclusive
